@@ -56,6 +56,9 @@ type Expr struct {
 type Opts struct {
 	Abbrev bool   // use  a  @a  .  ..  //  where XPath allows
 	Space  string // inserted around binary operators and after commas ("" = minimal)
+	// LongNum writes finite number literals with 22 leading zeros and 24 trailing zeros after the point: the same
+	// XPath number, but a text of about 50 digits (scanners that count or accumulate digits see a different input)
+	LongNum bool
 }
 
 func prec(op string) int {
@@ -253,6 +256,17 @@ func Print(e *Expr, o Opts) string {
 	case "lit":
 		return quote(e.S)
 	case "num":
+		if o.LongNum && e.V.C == "fin" {
+			t := NumString(&Num{C: "fin", N: e.V.N, K: e.V.K})
+			if !strings.Contains(t, ".") {
+				t += "."
+			}
+			t = "0000000000000000000000" + t + "000000000000000000000000"
+			if e.V.Neg {
+				t = "-" + t
+			}
+			return t
+		}
 		return NumString(e.V)
 	case "call":
 		var b strings.Builder
